@@ -35,11 +35,16 @@ def str_method(models, ex, obj, name, args, kwargs, st, node):
                 out.extend(str_method(models, ex, obj, name, [x for _, x in combo], kwargs, s2, node))
         return out
     s = V.z3str(obj)
+    if name == "join" and isinstance(args[0], SOpaque) and args[0].sort == "Lines":
+        return [Val(SStr(PY_JOIN(s, args[0].t)), st)]
     if name == "startswith":
         return [Val(SBool(z3.PrefixOf(V.z3str(args[0]), s)), st)]
     if name == "endswith":
         return [Val(SBool(z3.SuffixOf(V.z3str(args[0]), s)), st)]
     if name == "format":
+        hook = st.ghost.get("symbolic_format_hook")
+        if not isinstance(obj, str) and hook is not None:
+            return hook(models, ex, obj, args, kwargs, st, node)
         return str_format(models, ex, obj, args, kwargs, st, node)
     if name == "replace":
         old, new = args[0], args[1]
@@ -61,6 +66,12 @@ def str_method(models, ex, obj, name, args, kwargs, st, node):
         return sym_strip(ex, obj, st, node)
     if name == "split" and len(args) == 2 and isinstance(args[0], str) and args[0] and args[1] == 1:
         return sym_split_once(ex, obj, args[0], st, node)
+    if name == "split" and len(args) == 1 and not kwargs:
+        # A-str: sep.join(s.split(sep)) == s for a non-empty separator
+        sep = V.z3str(args[0])
+        parts = PY_SPLIT(s, sep)
+        st.assume(z3.Implies(z3.Length(sep) > 0, PY_JOIN(sep, parts) == s))
+        return [Val(SOpaque("Lines", parts), st)]
     if name == "splitlines" and not args:
         return [Val(SSeq(SPLITLINES(s), "str"), st)]
     if name == "isdigit":
@@ -72,7 +83,7 @@ def str_method(models, ex, obj, name, args, kwargs, st, node):
         return [Val(SInt(z3.IndexOf(s, sub, start)), st)]
     if name == "count" and isinstance(args[0], str) and len(args[0]) == 1:
         ex.unsupported(node, "str.count symbolic")
-    if name == "join" and (isinstance(args[0], SSeq) or hasattr(args[0], "__pyvc_symbolic_iter__")):
+    if name == "join" and hasattr(args[0], "__pyvc_symbolic_iter__") and not isinstance(args[0], SSeq):
         return [Val(V.sstr(fresh_name("joined")), st)]  # text of a symbolic list: not tracked (only feeds messages)
     if name == "join":
         items = models.iter_concrete(ex, args[0], node)
@@ -240,4 +251,9 @@ def sym_strip(ex, obj, st, node):
     return [Val(SStr(t), st)]
 
 
+# the lines of a text are an opaque value at file level (z3's sequence theory is incomplete for
+# uninterpreted functions over Seq(String)); indexable lines are used only inside rewrite_lines
+LINES = V.opaque_sort("Lines")
+PY_SPLIT = z3.Function("py_split", z3.StringSort(), z3.StringSort(), LINES)
+PY_JOIN = z3.Function("py_join", z3.StringSort(), LINES, z3.StringSort())
 SPLITLINES = z3.Function("py_splitlines", z3.StringSort(), z3.SeqSort(z3.StringSort()))
